@@ -227,10 +227,10 @@ def run():
                 hc = pvlib.history_confirm(reqs, rq["id"], label="C10 shard-prefix confirm")
                 if not hc or hc["end"] != end:
                     raise pvlib.Broken(f"flaky observation for {rq['src']!r}")
-                hist = []
+                hist = [dict(h, id=f"h{k}") for k, h in enumerate(pvlib.history_prefix(reqs, rq["id"]))]
             ck.reject(signature(op, a, b) + ":after-history", f"{rq['src']} gives {end} when evaluated after programs that used a descendant overriding `{op}` in the same process "
                       f"(alone it gives {again[rq['id']]['end']}) ({why})",
-                      {"src": rq["src"], "observed": end, "alone": again[rq["id"]]["end"], "history": [h["src"] for h in hist][:5], "op": op, "a": a, "b": b, "why": why})
+                      {"src": rq["src"], "observed": end, "alone": again[rq["id"]]["end"], "history": [h["src"] for h in hist][:5] if len(hist) <= 30 else [h["src"] for h in hist], "op": op, "a": a, "b": b, "why": why})
             continue
         ck.reject(signature(op, a, b), f"{rq['src']} gives {end} ({why})",
                   {"src": rq["src"], "observed": end, "op": op, "a": a, "b": b, "why": why})
